@@ -9,8 +9,12 @@ import (
 	"math/big"
 	"os"
 	"path/filepath"
+	"runtime"
 	"sort"
 	"strings"
+	"sync"
+	"sync/atomic"
+	"time"
 
 	"github.com/boltdb/bolt"
 
@@ -22,7 +26,9 @@ import (
 	"github.com/skycoin/skycoin/src/coin"
 	"github.com/skycoin/skycoin/src/util/logging"
 	"github.com/skycoin/skycoin/src/visor"
+	"github.com/skycoin/skycoin/src/visor/dbutil"
 	"github.com/skycoin/skycoin/src/visor/historydb"
+	"github.com/skycoin/skycoin/src/wallet"
 )
 
 func main() { Main(run) }
@@ -1177,6 +1183,219 @@ func (h *hist) blockTermGenesis() string {
 	return h.blockTerm(*g)
 }
 
+// ---- concurrency group: queries issued while the history is being executed
+
+type concAnswer struct {
+	lo, hi int64
+	kind   int // 0 balance of all addresses, 1 transactions of one address
+	addr   int
+	err    string
+	bal    []wallet.BalancePair
+	txs    []visor.Transaction
+}
+
+// concRound: one goroutine executes injections and blocks on the real visor, nq
+// goroutines keep querying; every distinct answer is recorded with the numbers of
+// operations completed when the call started / started when it returned.
+func (h *hist) concRound(nops, nq int) (string, string, map[string]interface{}, error) {
+	r := h.r
+	var steps []string
+	addStep := func(op string) error {
+		head, err := h.n.Head()
+		if err != nil {
+			return err
+		}
+		pt, _, err := h.poolTerm(head.Block.Head)
+		if err != nil {
+			return err
+		}
+		steps = append(steps, Tuple(op, pt))
+		return nil
+	}
+	mkBlock := func(txns coin.Transactions, dt uint64) (string, error) {
+		head, _ := h.n.Head()
+		sb, err := h.n.MakeBlock(txns, head.Time()+dt)
+		if err != nil {
+			return "", fmt.Errorf("MakeBlock: %v", err)
+		}
+		if err := h.n.V.ExecuteSignedBlock(sb); err != nil {
+			return "", fmt.Errorf("ExecuteSignedBlock: %v", err)
+		}
+		return "HBlock (" + h.blockTerm(sb) + ")", nil
+	}
+	// sequential prefix: genesis, then a few blocks spreading the coins
+	if err := addStep("HBlock (" + h.blockTermGenesis() + ")"); err != nil {
+		return "", "", nil, err
+	}
+	for i := 0; i < 4; i++ {
+		t, _, ok, err := h.n.RandomSpend(r, nil)
+		if err != nil || !ok {
+			return "", "", nil, fmt.Errorf("prefix spend: %v", err)
+		}
+		op, err := mkBlock(coin.Transactions{t}, uint64(3000+r.Intn(9000)))
+		if err != nil {
+			return "", "", nil, err
+		}
+		if err := addStep(op); err != nil {
+			return "", "", nil, err
+		}
+	}
+	// Widen the gap between consecutive read transactions of one API call: the verif-tagged
+	// hook dbutil.VerifBeforeView runs before every read transaction is opened; during this
+	// group it yields and pauses briefly so that a commit can fall between two reads
+	dbutil.VerifBeforeView = func(*dbutil.DB, string) {
+		runtime.Gosched()
+		time.Sleep(150 * time.Microsecond)
+	}
+	defer func() { dbutil.VerifBeforeView = nil }()
+	var started, done int64
+	atomic.StoreInt64(&started, int64(len(steps)))
+	atomic.StoreInt64(&done, int64(len(steps)))
+	var stop int32
+	var wg sync.WaitGroup
+	answers := make([][]concAnswer, nq)
+	for g := 0; g < nq; g++ {
+		wg.Add(1)
+		go func(g int) {
+			defer wg.Done()
+			seen := map[string]int{} // (lo, answer) -> index of the recorded answer with the smallest hi
+			addrs := append([]cipher.Address{}, h.w.Addrs...)
+			for i := 0; atomic.LoadInt32(&stop) == 0; i++ {
+				a := concAnswer{lo: atomic.LoadInt64(&done)}
+				var key string
+				if (i+g)%3 != 0 {
+					bps, err := h.n.V.GetBalanceOfAddresses(addrs)
+					a.hi = atomic.LoadInt64(&started)
+					a.bal = bps
+					if err != nil {
+						a.err = errClass(err)
+					}
+					key = fmt.Sprint("b", a.lo, a.err, bps)
+				} else {
+					a.kind, a.addr = 1, 1+(i/3)%2
+					txs, _, err := h.n.V.GetTransactions([]visor.TxFilter{visor.NewAddrsFilter([]cipher.Address{h.w.Addrs[a.addr-1]})}, visor.AscOrder, nil)
+					a.hi = atomic.LoadInt64(&started)
+					a.txs = txs
+					if err != nil {
+						a.err = "error: " + err.Error()
+					}
+					key = fmt.Sprint("t", a.addr, a.lo, a.err, len(txs))
+					for _, t := range txs {
+						key += t.Transaction.Hash().Hex()[:8] + fmt.Sprint(t.Status.Confirmed)
+					}
+				}
+				// the same answer for the same start: the narrowest window is the strongest claim
+				if j, ok := seen[key]; !ok {
+					seen[key] = len(answers[g])
+					answers[g] = append(answers[g], a)
+				} else if a.hi < answers[g][j].hi {
+					answers[g][j] = a
+				}
+			}
+		}(g)
+	}
+	// the writer
+	var werr error
+	for i := 0; i < nops && werr == nil; i++ {
+		used, err := h.poolInputs()
+		if err != nil {
+			werr = err
+			break
+		}
+		utx, _ := h.n.V.GetAllUnconfirmedTransactions()
+		atomic.AddInt64(&started, 1)
+		var op string
+		if len(utx) > 0 && (i%2 == 1 || len(utx) >= 3) { // a block confirming the pending transactions
+			var txns coin.Transactions
+			for _, u := range utx {
+				txns = append(txns, u.Transaction)
+			}
+			op, werr = mkBlock(txns, uint64(500+r.Intn(9000)))
+		} else {
+			t, _, ok, err := h.n.RandomSpend(r, used)
+			if err != nil || !ok {
+				werr = fmt.Errorf("spend: %v", err)
+			} else if _, _, _, err := h.n.V.InjectUserTransaction(t); err != nil {
+				werr = fmt.Errorf("inject: %v", err)
+			}
+			op = "HPool"
+		}
+		if werr == nil {
+			werr = addStep(op)
+		}
+		atomic.AddInt64(&done, 1)
+	}
+	atomic.StoreInt32(&stop, 1)
+	wg.Wait()
+	if werr != nil {
+		return "", "", nil, werr
+	}
+	// answers as terms (ids are assigned here, single-threaded)
+	var qs []string
+	spanning := 0
+	for g := range answers {
+		for _, a := range answers[g] {
+			if a.hi > a.lo {
+				spanning++
+			}
+			var c string
+			if a.kind == 0 {
+				if a.err != "" {
+					c = "CQBal [1; 2; 3; 4; 5; 6] (inl " + Str(a.err) + ")"
+				} else {
+					rows := make([]string, len(a.bal))
+					for i, bp := range a.bal {
+						rows[i] = Tuple(ZH(bp.Confirmed.Coins), ZH(bp.Confirmed.Hours), ZH(bp.Predicted.Coins), ZH(bp.Predicted.Hours))
+					}
+					c = "CQBal [1; 2; 3; 4; 5; 6] (inr " + List(rows) + ")"
+				}
+			} else {
+				if a.err != "" {
+					c = fmt.Sprintf("CQTx (-1) [%d] []", a.addr)
+				} else {
+					c = fmt.Sprintf("CQTx 0 [%d] %s", a.addr, h.txRows(a.txs))
+				}
+			}
+			qs = append(qs, Tuple(fmt.Sprint(a.lo), fmt.Sprint(a.hi), c))
+		}
+	}
+	js := map[string]interface{}{"round": h.hidx, "ops": len(steps), "distinct_answers": len(qs), "answers_spanning_an_operation": spanning,
+		"what": "balance / address-transaction queries issued by concurrent goroutines while injections and blocks were executed"}
+	return List(steps), List(qs), js, nil
+}
+
+// txRows prints GetTransactions rows in the canonical order (confirmed by (seq, id), then unconfirmed by id)
+func (h *hist) txRows(txs []visor.Transaction) string {
+	type row struct {
+		id   int
+		conf bool
+		seq  uint64
+	}
+	rows := make([]row, len(txs))
+	for i, t := range txs {
+		rows[i] = row{h.tx.of(t.Transaction.Hash()), t.Status.Confirmed, t.Status.BlockSeq}
+	}
+	sort.SliceStable(rows, func(i, j int) bool {
+		a, b := rows[i], rows[j]
+		if a.conf != b.conf {
+			return a.conf
+		}
+		if a.conf && a.seq != b.seq {
+			return a.seq < b.seq
+		}
+		return a.id < b.id
+	})
+	rs := make([]string, len(rows))
+	for i, x := range rows {
+		sq := x.seq
+		if !x.conf {
+			sq = 0
+		}
+		rs[i] = Tuple(zi(x.id), B(x.conf), ZH(sq))
+	}
+	return List(rs)
+}
+
 // genesisHeadProbe: with ONLY the genesis block, a pool transaction paying address A
 // and GetTransactions(addrs=[A], unconfirmed) -> the predicted unspents carry the null
 // SrcTransaction (CreateUnspents special-cases BkSeq 0), the lookup of that hash in
@@ -1259,7 +1478,38 @@ func run(args []string) error {
 	}
 	o.Raw(fmt.Sprintf("Definition cases_hist : list (list hstep) := %s.\n", List(names)))
 	o.Def("cases_stale", "Z * Z * bool", stale)
-	o.Side["cases"] = map[string]interface{}{"hist": hj, "stale": staleJ}
+	// concurrency group
+	if runtime.GOMAXPROCS(0) < 4 {
+		runtime.GOMAXPROCS(4)
+	}
+	nrounds := 4
+	if f.Tier != "quick" {
+		nrounds = 30
+	}
+	var concNames []string
+	var concJ []map[string]interface{}
+	for i := 0; i < nrounds; i++ {
+		w := vk.NewWorld([]byte(fmt.Sprintf("c07-conc-%d-%d", f.Seed, i)), 6)
+		n, err := w.Open(filepath.Join(dir, fmt.Sprintf("conc%d.db", i)), true)
+		if err != nil {
+			return err
+		}
+		h := &hist{w: w, n: n, r: r, ux: newIDs(), tx: newIDs(), bk: newIDs(), hidx: i, dist: dist}
+		st, qs, js, err := h.concRound(16+r.Intn(10), 2+r.Intn(3))
+		h.n.Remove()
+		if err != nil {
+			return fmt.Errorf("concurrency round %d: %v", i, err)
+		}
+		o.Raw(fmt.Sprintf("Definition conc_%d : conc_case :=\n  (%s,\n   %s).\n", i, strings.ReplaceAll(st, "; (H", ";\n   (H"), strings.ReplaceAll(qs, "); (", ");\n   (")))
+		concNames = append(concNames, fmt.Sprintf("conc_%d", i))
+		concJ = append(concJ, js)
+		for k := 0; k < js["distinct_answers"].(int); k++ {
+			o.Count(fmt.Sprint("conc", f.Seed, i, k), true)
+		}
+		dist.Add("conc_round")
+	}
+	o.Raw(fmt.Sprintf("Definition cases_conc : list conc_case := %s.\n", List(concNames)))
+	o.Side["cases"] = map[string]interface{}{"hist": hj, "stale": staleJ, "conc": concJ}
 	o.Side["rule"] = "a case is one random history on a real visor (5-25 blocks of 1-3 transactions among 6 addresses, unconfirmed transactions, conflicting blocks, pool maintenance, reopen after wiping index / history markers); after every step every view is queried through the public API; histories are distinct by construction (own keys)"
 	o.Side["distribution"] = dist.Sorted()
 	o.Side["api_queries"] = nq
